@@ -328,10 +328,10 @@ func c09Batch(op string, id int) []vPoint {
 // a bare flush is then redundant ("X Y F" = "X YF"). RO = clean close + reopen (flushes the memtable, reloads files).
 func c09Ops(big bool) []string {
 	if !big {
-		return []string{"WR", "WE", "WNF", "WLF", "WRF", "WOF", "WEF", "WBF", "LC", "FC", "MO", "RO"}
+		return []string{"WR", "WE", "WNF", "WLF", "WRF", "WOF", "WEF", "WBF", "LC", "LCs", "MO", "RO"}
 	}
 	return []string{"W4", "WN", "WL", "WR", "WO", "WE", "WB", "Wc", "We", "Wh", "W4F", "WNF", "WLF", "WRF", "WOF", "WEF", "WBF", "WcF",
-		"LC", "FC", "MO", "MF", "RO"}
+		"LC", "LCs", "FC", "FCs", "MO", "MF", "RO"}
 }
 
 // c09Apply executes one op on the shard and on the model (writes of the C09 menu here, everything else by vApply).
@@ -346,6 +346,15 @@ func c09Apply(v *vShard, m vModel, op string, id int) error {
 			v.Flush()
 		}
 		return nil
+	}
+	if op == "LCs" || op == "FCs" {
+		// level / full compaction forced onto the streaming path (StreamIterators: statistics of the source chunks are
+		// merged, not recomputed); with the default "auto" setting the tiny files of this universe always take the
+		// record-based path (statistics recomputed from the rows by the table builder).
+		old := immutable.GetMergeFlag4TsStore()
+		immutable.SetMergeFlag4TsStore(util.StreamingCompact)
+		defer immutable.SetMergeFlag4TsStore(old)
+		return vApply(v, m, op[:2], id)
 	}
 	if op == "RO" {
 		// Flush explicitly before the clean close: whether the rows a closing shard flushes land in an ordered or an
